@@ -71,6 +71,13 @@ def run(ctx):
     # TRACE: seeded wide-domain tracks with many sustains over multi-segment tempo maps
     cases = _notes.seeded_tracks(ctx, "C03", ctx.pick(400, 6000), sustain_p=0.7)
     _notes._judge(ctx, cases, "C03", "seeded tracks", max_skip_ratio=0.01)
+    # sizes: sections of several hundred ticks
+    cases = []
+    for k in range(ctx.pick(3, 40)):
+        res_big = r.choice([192, 480, 7])
+        body = nt.random_track(r, r.choice([300, 700]), res=res_big, phrases=5, events=3, sustain_p=0.7)
+        cases.append({"id": f"C03-big{k}", "res": res_big, "body": body, "tempo": [[0, 120000], [5000, 90000], [20000, 200000]]})
+    _notes._judge(ctx, cases, "C03", "seeded long sections", max_skip_ratio=0.0)
     # several instrument sections in one chart, each judged as if it were alone
     cases = _notes.seeded_multi(ctx, "C03", ctx.pick(150, 2500), sustain_p=0.7)
     _notes._judge_multi(ctx, cases, "C03", "seeded charts with several sections", max_skip_ratio=0.02)
